@@ -14,8 +14,9 @@ CHECK = {
     "harness": "c15_wrappable_grid.cpp",
     "srcs": [],                       # WrappableGrid.hpp / Grid.hpp are header-only
     "flavours": ["asan"],
-    # watchdogs are sized for a machine shared with other checks (calibrated: quick 35 s CPU in total,
-    # thorough ~45 min CPU in total, i.e. < 3 min per shard on an idle 16-core machine)
+    # watchdogs are sized for a machine shared with other checks (calibrated CPU time, all shards together:
+    # quick ~35 s; thorough ~250 s bounded-exhaustive + ~550 s random, i.e. < 1 min per shard on an idle
+    # 16-core machine)
     "quick": {"shards": 4, "timeout": 1800},
     "thorough": {"shards": 16, "timeout": 14400},
     # Only the thorough tier enumerates the property's whole bounded scope (2D grids 1..4, 3D grids 1..3,
@@ -40,8 +41,8 @@ CHECK = {
             "tiers = full stated scope), (c) exh3d_bfs: the same on 3D grids 1..3 cells/axis (thorough: <= 3 translations "
             "everywhere = full stated scope; quick: <= 3 translations on grids 1..2 cells/axis, <= 2 translations on the "
             "others); the last expansion of a search is split in chunks (one unit each), counters 'states' = distinct states "
-            "expanded, 'transitions' = translations executed and fully compared; 'exhaustive' refers to this part and to "
-            "the scope of the tier that ran. Remaining case indices: random histories from PRNG(seed, index): 2D/3D grids "
+            "expanded, 'transitions' = translations executed and fully compared; 'exhaustive' (claimed by the thorough tier "
+            "only, whose units cover the whole stated bounded scope) refers to this part. Remaining case indices: random histories from PRNG(seed, index): 2D/3D grids "
             "of 1..8 cells/axis with int / double / std::string cells (strings beyond the small-string buffer, NaN, -0.0, "
             "INT_MIN as values), 1..50 translations with per-axis offsets up to +-2n (uniform, small, single-axis, "
             "{0,+-1,+-(n-1),+-n,+-(n+1),+-(2n-1),+-2n}, all-negative), explicit / special / defaulted empty value, "
@@ -51,7 +52,7 @@ CHECK = {
     "level_text": "exploration: the real WrappableGrid is driven through every translation history of the bounded scope "
                   "(2D grids up to 4x4 and, in the thorough tier, 3D grids up to 3x3x3, up to 3 translations with per-axis "
                   "offsets in [-(n+1), n+1]; state-de-duplicated search over copies of the real object plus, for 2D, direct "
-                  "enumeration) and through 3e3 (quick) / 2e6 (thorough) random histories of up to 50 translations and writes "
+                  "enumeration) and through 3e3 (quick) / 5e5 (thorough) random histories of up to 50 translations and writes "
                   "on grids up to 8 cells per axis with int, double and std::string cells; after every operation every cell "
                   "and the reported offset are compared with a window-over-unbounded-map reference model; ASan+UBSan, "
                   "libstdc++ assertions and the library's asserts watch the same executions",
